@@ -63,7 +63,7 @@
 (***************************************************************************)
 EXTENDS Integers, Sequences, SequencesExt, FiniteSets, TLC
 
-CONSTANTS Images,    \* source images: [n, hist, shape, fam, comp, data, refs, alg]
+CONSTANTS Images,    \* source images: [n, hist, shape, fam, comp, data, refs, alg, ut]  (ut: every time stamp is one instant)
           Options,   \* option records [k, a, v, i] a program is built from
           MaxProg,   \* maximal program length
           Places,    \* subset of {"same-digest", "same-tag", "same-replace", "cross"}
@@ -140,7 +140,11 @@ Steps(R(_)) == SelectSeq(prog, R)
 \* WithData: the last one wins; "keep" = -1 (the default), "zero" = 0, "all" = larger than everything
 MaxData == LET ds == SelectSeq(prog, LAMBDA o : o.k = "Data") IN IF ds = <<>> THEN "keep" ELSE ds[Len(ds)].a
 
-(* static effect tables for the catalogue images (labels keep=v stamp=..., env PATH E1=v1, cmd /bin/app;  *)
+\* time option variants that name the instant every time stamp of a uniform-time image already has (UTC, a fixed
+\* zone, the local zone, with an earlier `after`): no-ops on such an image, ordinary changes on any other
+SameT == {"same", "samezone", "samelocal", "sameafter"}
+(* static effect tables for the catalogue images (labels keep=v stamp=..., env PATH E1=v1, cmd /bin/app,  *)
+(* entrypoint /entry, port 8080/tcp, volume /data;                                                         *)
 (* OCI manifests carry keep.anno=v, children of an index also common.anno=c; Docker manifests carry none)   *)
 \* does manifest step o change manifest m (m = "top" | platform) ?  scope of WithAnnotation: no prefix = top only
 IsTop(m) == m = "top" \/ img.shape = "image"
@@ -169,11 +173,14 @@ ChgC(o, p, ch) ==
                           [] OTHER -> TRUE
     [] o.k = "Env" -> ~(o.a = "E1" /\ o.v = "v1")
     [] o.k = "Cmd" -> o.a # "/bin/app"
-    [] o.k \in {"Entrypoint", "ExposeAdd", "VolumeAdd"} -> TRUE
+    [] o.k = "Entrypoint" -> o.a # "/entry"
+    [] o.k = "ExposeAdd" -> o.a # "8080/tcp"
+    [] o.k = "VolumeAdd" -> o.a # "/data"
+    [] o.k = "ExposeRm" -> o.a = "8080/tcp"
+    [] o.k = "VolumeRm" -> o.a = "/data"
     [] o.k = "Platform" -> ~(o.a = "linux/amd64" /\ p = "p1")                        \* platform.Match with the config's own
-    [] o.k \in {"ExposeRm", "VolumeRm"} -> FALSE
     [] o.k = "BuildArgRm" -> \E j \in 1..Len(ch.H) : ch.H[j].e /\ ch.H[j].id = o.a
-    [] o.k = "ConfigTime" -> o.a # "after"
+    [] o.k = "ConfigTime" -> o.a # "after" /\ ~(o.a \in SameT /\ img.ut)
     [] o.k \in {"ConfigDigest", "DigestAlgo"} -> ch.cfgalg # o.a
     [] OTHER -> FALSE                                                               \* the label readers
 \* effect of per-file step o on a layer with identity id: "nop" | "chg" (headers or content rewritten) |
@@ -184,9 +191,10 @@ FileEff(o, id) ==
                               [] o.a = "l1/data.txt" /\ id = "L1" -> "del" [] OTHER -> "nop"
     [] o.k = "Reproducible" -> "chg"
     [] o.k = "LayerTime" -> CASE o.a = "after" -> "nop"
+                              [] o.a \in SameT /\ img.ut /\ id # "NEW" -> "nop"      \* (the added tar has its own times)
                               [] o.a \in {"base1", "baseref"} /\ id = "L1" -> "nop"
                               [] OTHER -> "chg"
-    [] o.k = "FileTarTime" -> IF id = "L1" /\ o.a # "after" THEN "chg" ELSE "nop"
+    [] o.k = "FileTarTime" -> IF id = "L1" /\ o.a # "after" /\ ~(o.a \in SameT /\ img.ut) THEN "chg" ELSE "nop"
     [] OTHER -> "nop"
 
 \* "options that change nothing": by the documented meaning of the option on the catalogue image, not by the marks
